@@ -217,6 +217,28 @@ Section Facts.
     - exists g. split; [eapply any_file_cache; eauto | auto].
   Qed.
 
+  Lemma any_file_move (w : world) p q g : any_file (move_file w p q) g -> any_file w g.
+  Proof.
+    unfold move_file. destruct (fget w p) as [f|] eqn:Ef; [|auto].
+    intros [(r & Hr) | (c' & t' & Hc' & Hl)].
+    - unfold fget in Hr. cbn in Hr. apply (alookup_ainsert_some _ beq_spec) in Hr as [[_ ->] | [_ Hr]].
+      + eapply any_file_path; exact Ef.
+      + apply (alookup_aremove_some _ beq_spec) in Hr as [_ Hr]. eapply any_file_path. exact Hr.
+    - eapply any_file_cache; eauto.
+  Qed.
+
+  Lemma move_file_rd (w : world) p q : w_rd (move_file w p q) = w_rd w.
+  Proof. unfold move_file. destruct (fget w p); reflexivity. Qed.
+
+  Lemma move_file_clock (w : world) p q : w_clock (move_file w p q) = w_clock w.
+  Proof. unfold move_file. destruct (fget w p); reflexivity. Qed.
+
+  Lemma move_file_mode (w : world) p q : w_mode (move_file w p q) = w_mode w.
+  Proof. unfold move_file. destruct (fget w p); reflexivity. Qed.
+
+  Lemma move_file_cache (w : world) p q : cache_of (move_file w p q) = cache_of w.
+  Proof. unfold cache_of. rewrite move_file_rd. reflexivity. Qed.
+
   Lemma write_file_fine (w : world) p c :
     w_mode w = Fine ->
     write_file w p c =
@@ -325,13 +347,14 @@ Section Facts.
 
   Lemma step_mode w w' : step w w' -> w_mode w = Fine -> w_mode w' = Fine.
   Proof.
-    intros Hs Hm. destruct Hs as [w p a t w' _ _ Hb | w t p w' Hr | w p c | w p | w p x | w tbl _ | w hr r h
+    intros Hs Hm. destruct Hs as [w p a t w' _ _ Hb | w t p w' Hr | w p c | w p | w p x | w p q | w tbl _ | w hr r h
                                  | w w' tbl Hi | w | w rd' _].
     - destruct (back_up_inv _ _ _ _ Hb) as (c & f & _ & _ & ->). exact Hm.
     - destruct (restore_inv _ _ _ _ Hr) as (c & f & _ & _ & ->). exact Hm.
     - rewrite (write_file_fine _ _ _ Hm). reflexivity.
     - exact Hm.
     - unfold set_exec. destruct (fget w p); exact Hm.
+    - rewrite move_file_mode. exact Hm.
     - exact Hm.
     - destruct (write_history_inv hr w r h) as (_ & _ & H & _). congruence.
     - destruct (init_dir_inv _ _ _ Hi) as (_ & _ & H & _). congruence.
@@ -341,7 +364,7 @@ Section Facts.
 
   Lemma step_sim w w' : step w w' -> sim w w' \/ exists p c, w' = write_file w p c.
   Proof.
-    intros Hs. destruct Hs as [w p a t w' _ _ Hb | w t p w' Hr | w p c | w p | w p x | w tbl _ | w hr r h
+    intros Hs. destruct Hs as [w p a t w' _ _ Hb | w t p w' Hr | w p c | w p | w p x | w p q | w tbl _ | w hr r h
                               | w w' tbl Hi | w | w rd' Hsh].
     - left. apply sim_of_sub.
       + destruct (back_up_inv _ _ _ _ Hb) as (c & f & _ & _ & ->). cbn. lia.
@@ -352,6 +375,7 @@ Section Facts.
     - right. eauto.
     - left. apply sim_of_sub; [cbn; lia|]. intro g. apply any_file_remove.
     - left. split; [unfold set_exec; destruct (fget w p); cbn; lia|]. intro g. apply any_file_set_exec.
+    - left. apply sim_of_sub; [rewrite move_file_clock; lia|]. intro g. apply any_file_move.
     - left. apply sim_of_sub; [cbn; lia|]. intro g. apply any_file_same_files; [reflexivity|].
       apply cache_sub_same. reflexivity.
     - left. destruct (write_history_inv hr w r h) as (H1 & H2 & _ & H3 & _).
@@ -425,7 +449,7 @@ Section Facts.
 
   Lemma step_cache_addressed w w' : step w w' -> cache_addressed w -> cache_addressed w'.
   Proof.
-    intros Hs Ha. destruct Hs as [w p a t w' Hok Hg Hb | w t p w' Hr | w p c | w p | w p x | w tbl _ | w hr r h
+    intros Hs Ha. destruct Hs as [w p a t w' Hok Hg Hb | w t p w' Hr | w p c | w p | w p x | w p q | w tbl _ | w hr r h
                                  | w w' tbl Hi | w | w rd' Hsh].
     - eapply back_up_cache_addressed; eauto.
     - eapply cache_sub_addressed; [eapply restore_cache_sub; eauto | exact Ha].
@@ -433,6 +457,7 @@ Section Facts.
       rewrite write_file_rd. reflexivity.
     - exact Ha.
     - eapply cache_sub_addressed; [|exact Ha]. apply cache_sub_same. apply set_exec_cache.
+    - eapply cache_sub_addressed; [|exact Ha]. apply cache_sub_same. apply move_file_cache.
     - exact Ha.
     - eapply cache_sub_addressed; [|exact Ha]. apply cache_sub_same.
       destruct (write_history_inv hr w r h) as (_ & _ & _ & H & _). exact H.
@@ -446,13 +471,14 @@ Section Facts.
     step w w' -> table_sound w ->
     forall tbl p st, rd_table (w_rd w') = Some (SF_ok tbl) -> alookup bytes_eqb tbl p = Some st -> state_ok w st.
   Proof.
-    intros Hs Ht. destruct Hs as [w p a t w' Hok Hg Hb | w t p w' Hr | w p c | w p | w p x | w tbl0 Htbl | w hr r h
+    intros Hs Ht. destruct Hs as [w p a t w' Hok Hg Hb | w t p w' Hr | w p c | w p | w p x | w p p2 | w tbl0 Htbl | w hr r h
                                  | w w' tbl0 Hi | w | w rd' Hsh]; intros tbl q st Htb Hl.
     - destruct (back_up_inv _ _ _ _ Hb) as (c & f & _ & _ & ->). cbn in Htb. eapply Ht; eauto.
     - destruct (restore_inv _ _ _ _ Hr) as (c & f & _ & _ & ->). cbn in Htb. eapply Ht; eauto.
     - rewrite write_file_rd in Htb. eapply Ht; eauto.
     - cbn in Htb. eapply Ht; eauto.
     - rewrite set_exec_rd in Htb. eapply Ht; eauto.
+    - rewrite move_file_rd in Htb. eapply Ht; eauto.
     - cbn in Htb. injection Htb as <-. eapply Htbl; eauto.
     - destruct (write_history_inv hr w r h) as (_ & _ & _ & _ & H). rewrite H in Htb. eapply Ht; eauto.
     - destruct (init_dir_inv _ _ _ Hi) as (_ & _ & _ & _ & H1 & H2).
@@ -1224,11 +1250,12 @@ Section Facts.
   Lemma apply_op_steps (w : world) o :
     disk_inv w -> safe_op o -> steps w (fst (apply_op teqb hc hl hr w o)).
   Proof.
-    intros Hinv Hsafe. destruct o as [p c | p | p x | t | | | | | t | v | t v | goal | goal];
+    intros Hinv Hsafe. destruct o as [p c | p | p x | p q | t | | | | | t | v | t v | goal | goal];
       cbn [apply_op fst]; unfold upd_rd.
     - apply user_steps. apply SWrite.
     - apply user_steps. apply SRemove.
     - apply user_steps. apply SChmod.
+    - apply user_steps. apply SMove.
     - apply user_rd_steps. split; [|split]; cbn.
       + intros c' t' f Hc Hl. destruct (rd_cache (w_rd w)) as [c|]; [|discriminate]. injection Hc as <-.
         apply (alookup_aremove_some _ teqb_spec) in Hl as [_ Hl]. exists c. auto.
@@ -1399,7 +1426,7 @@ Proof.
   intro H.
   assert (disk_inv sym_eqb SContent ois_w) as Hinv by (apply InvProofs.c07_init; reflexivity).
   specialize (H ois_w (write_table sym ois_w ois_tbl) Hinv (OWriteTable _ _ _ _ _)).
-  inversion H as [w p a t w' Hok Hg Hb | w t p w' Hr | w p c | w p | w p x | w tbl0 Htbl | w hr r h
+  inversion H as [w p a t w' Hok Hg Hb | w t p w' Hr | w p c | w p | w p x | w p q | w tbl0 Htbl | w hr r h
                  | w w' tbl0 Hi | w | w rd' Hsh].
   - unfold back_up in Hb. cbn in Hb. discriminate.
   - unfold restore in Hr. cbn in Hr. discriminate.
